@@ -50,62 +50,75 @@ theorem seek_core (v : Bytes) : ∀ ss : List Bytes, ss.Pairwise (fun a b => byt
 /-! ### the paging scanner of a sub-query -/
 
 theorem scanCount_eq (m nil : C → Bool) (off : Nat) (lim : Option Nat) :
-    ∀ (rows : List C) (o k : Nat), (∀ r ∈ rows, nil r = false) → o ≤ off → (o < off → k = 0) →
+    ∀ (rows : List C) (o k : Nat), o ≤ off → (o < off → k = 0) →
       scanCount m nil off lim rows o k =
         (match lim with
-         | some l => (((rows.filter m).drop (off - o)).take (l - k)).length
-         | none => ((rows.filter m).drop (off - o)).length)
-  | [], o, k, _, _, _ => by cases lim <;> simp [scanCount]
-  | r :: rest, o, k, hn, ho, hk => by
-    have hr : nil r = false := hn r (List.mem_cons_self ..)
-    have hn' : ∀ x ∈ rest, nil x = false := fun x hx => hn x (List.mem_cons_of_mem _ hx)
+         | some l => ((((rows.filter fun r => !nil r).filter m).drop (off - o)).take (l - k)).length
+         | none => (((rows.filter fun r => !nil r).filter m).drop (off - o)).length)
+  | [], o, k, _, _ => by cases lim <;> simp [scanCount]
+  | r :: rest, o, k, ho, hk => by
     unfold scanCount
     cases lim with
     | none =>
       simp only [Bool.false_eq_true, if_false]
-      by_cases hm : m r = true
-      · simp only [hm, if_true, List.filter_cons_of_pos]
-        by_cases hlt : o < off
-        · simp only [hlt, if_true]
-          rw [scanCount_eq m nil off none rest (o + 1) k hn' (by omega) (fun _ => hk hlt)]
-          have : off - o = (off - (o + 1)) + 1 := by omega
-          simp [this]
-        · simp only [hlt, if_false, hr, Bool.false_eq_true]
-          rw [scanCount_eq m nil off none rest o (k + 1) hn' ho (fun h => absurd h hlt)]
-          have : off - o = 0 := by omega
-          simp [this, Nat.add_comm]
-      · have hm' : m r = false := by simpa using hm
-        simp only [hm', Bool.false_eq_true, if_false]
-        rw [scanCount_eq m nil off none rest o k hn' ho hk]
-        simp [hm']
+      by_cases hr : nil r = true
+      · simp only [hr, if_true]
+        rw [scanCount_eq m nil off none rest o k ho hk]
+        simp [hr]
+      · have hr' : nil r = false := by simpa using hr
+        simp only [hr', Bool.false_eq_true, if_false]
+        by_cases hm : m r = true
+        · simp only [hm, if_true]
+          by_cases hlt : o < off
+          · simp only [hlt, if_true]
+            rw [scanCount_eq m nil off none rest (o + 1) k (by omega) (fun _ => hk hlt)]
+            have : off - o = (off - (o + 1)) + 1 := by omega
+            simp [this, hr', hm]
+          · simp only [hlt, if_false]
+            rw [scanCount_eq m nil off none rest o (k + 1) ho (fun h => absurd h hlt)]
+            have : off - o = 0 := by omega
+            simp [this, hr', hm, Nat.add_comm]
+        · have hm' : m r = false := by simpa using hm
+          simp only [hm', Bool.false_eq_true, if_false]
+          rw [scanCount_eq m nil off none rest o k ho hk]
+          simp [hr', hm']
     | some l =>
       by_cases hge : k ≥ l
       · have : l - k = 0 := by omega
         simp [hge, this]
       · simp only [hge, decide_false, Bool.false_eq_true, if_false]
-        by_cases hm : m r = true
-        · simp only [hm, if_true, List.filter_cons_of_pos]
-          by_cases hlt : o < off
-          · simp only [hlt, if_true]
-            rw [scanCount_eq m nil off (some l) rest (o + 1) k hn' (by omega) (fun _ => hk hlt)]
-            have : off - o = (off - (o + 1)) + 1 := by omega
-            simp [this]
-          · simp only [hlt, if_false, hr, Bool.false_eq_true]
-            rw [scanCount_eq m nil off (some l) rest o (k + 1) hn' ho (fun h => absurd h hlt)]
-            have h0 : off - o = 0 := by omega
-            have h1 : l - k = (l - (k + 1)) + 1 := by omega
-            simp only [h0, List.drop_zero]
-            rw [h1, List.take_succ_cons, List.length_cons]; exact Nat.add_comm _ _
-        · have hm' : m r = false := by simpa using hm
-          simp only [hm', Bool.false_eq_true, if_false]
-          rw [scanCount_eq m nil off (some l) rest o k hn' ho hk]
-          simp [hm']
+        by_cases hr : nil r = true
+        · simp only [hr, if_true]
+          rw [scanCount_eq m nil off (some l) rest o k ho hk]
+          simp [hr]
+        · have hr' : nil r = false := by simpa using hr
+          simp only [hr', Bool.false_eq_true, if_false]
+          by_cases hm : m r = true
+          · simp only [hm, if_true]
+            by_cases hlt : o < off
+            · simp only [hlt, if_true]
+              rw [scanCount_eq m nil off (some l) rest (o + 1) k (by omega) (fun _ => hk hlt)]
+              have : off - o = (off - (o + 1)) + 1 := by omega
+              simp [this, hr', hm]
+            · simp only [hlt, if_false]
+              rw [scanCount_eq m nil off (some l) rest o (k + 1) ho (fun h => absurd h hlt)]
+              have h0 : off - o = 0 := by omega
+              have h1 : l - k = (l - (k + 1)) + 1 := by omega
+              simp only [h0, List.drop_zero]
+              have hf : List.filter m (List.filter (fun r => !nil r) (r :: rest)) =
+                  r :: List.filter m (List.filter (fun r => !nil r) rest) := by simp [hr', hm]
+              rw [hf, h1, List.take_succ_cons, List.length_cons]; exact Nat.add_comm _ _
+          · have hm' : m r = false := by simpa using hm
+            simp only [hm', Bool.false_eq_true, if_false]
+            rw [scanCount_eq m nil off (some l) rest o k ho hk]
+            simp [hr', hm']
 
-/-- the scanner yields exactly the rows the specification's `paged` keeps (when no row has a nil key) -/
-theorem scanCount_paged (m nil : C → Bool) (skip limit : Option Int) (rows : List C)
-    (hn : ∀ r ∈ rows, nil r = false) :
-    scanCount m nil (pagingOffset skip) (pagingLimit limit) rows 0 0 = (paged skip limit (rows.filter m)).length := by
-  rw [scanCount_eq m nil _ _ rows 0 0 hn (Nat.zero_le _) (fun _ => rfl)]
+/-- the scanner yields exactly the rows the specification's `paged` keeps: the non-nil rows that
+    match, after skip and limit -/
+theorem scanCount_paged (m nil : C → Bool) (skip limit : Option Int) (rows : List C) :
+    scanCount m nil (pagingOffset skip) (pagingLimit limit) rows 0 0 =
+      (paged skip limit ((rows.filter fun r => !nil r).filter m)).length := by
+  rw [scanCount_eq m nil _ _ rows 0 0 (Nat.zero_le _) (fun _ => rfl)]
   unfold paged
   cases pagingLimit limit <;> simp
 
